@@ -315,6 +315,7 @@ struct Def;
 
 template<class M, class Tuple, int Index, class... Args>
 struct Def<M, Tuple, Index, L<Args...>> {
+    static inline typename M::next_type next = nullptr;
     static int fn(Args... args) {
         BodyRec r;
         r.method = &M::fn;
@@ -351,6 +352,10 @@ struct Slot {
 struct DefEntry {
     std::vector<int> cls; // class index per virtual position
     void* pf;             // real thunk
+    // the record that the library's own add_function built (its static
+    // definition_info), detached from the catalog until the case wants it
+    detail::definition_info* info = nullptr;
+    void** next = nullptr;
 };
 
 struct CallArg {
@@ -749,6 +754,18 @@ struct Engine {
                 });
             de.pf = (void*)detail::thunk<
                 P, typename M::signature_type, D::fn, mp::mp_rename<Args, detail::types>>::fn;
+            // register through the real add_function, then take the record
+            // out of the catalog: cases decide which definitions are live
+            {
+                typename M::template add_function<D::fn> adder(&D::next);
+                detail::definition_info* last = nullptr;
+                for (auto& di : M::fn.specs) {
+                    last = &di;
+                }
+                de.info = last;
+                de.next = reinterpret_cast<void**>(&D::next);
+                M::fn.specs.remove(*last);
+            }
             me.pool.push_back(de);
         });
         // calling
@@ -832,40 +849,23 @@ struct Engine {
         };
     }
 
+    std::vector<detail::definition_info*> live_defs;
+
     void clear_definitions() {
-        for (auto& d : def_store) {
-            if (d.method) {
-                d.method->specs.remove(d);
-                d.method = nullptr;
-            }
+        for (auto di : live_defs) {
+            di->method->specs.remove(*di);
         }
-        def_store.clear();
-        next_store.clear();
+        live_defs.clear();
     }
 
-    // registers pool entries `defs` (indices) of method m, in that order
+    // registers pool entries `defs` (indices) of method m, in that order,
+    // through the records built by the library's add_function
     void register_defs(std::size_t m, const std::vector<int>& defs) {
         for (int d : defs) {
-            auto& di = def_store.emplace_back();
-            auto& nx = next_store.emplace_back(nullptr);
-            di.method = methods[m].info;
-            di.pf = methods[m].pool[d].pf;
-            // for trace output only; must be a valid id under std_rtti
-            di.type = P::template static_type<DefEntry>();
-            di.next = &nx;
-            // the type id list of the definition's classes
-            auto ids = new type_id[methods[m].pool[d].cls.size() + 1];
-            std::size_t k = 0;
-            for (int c : methods[m].pool[d].cls) {
-                with_class(c, [&](auto tag) {
-                    ids[k++] = P::template static_type<
-                        typename decltype(tag)::type>();
-                });
-            }
-            ids[k] = 0;
-            di.vp_begin = ids;
-            di.vp_end = ids + k;
-            methods[m].info->specs.push_back(di);
+            auto di = methods[m].pool[d].info;
+            *methods[m].pool[d].next = nullptr;
+            methods[m].info->specs.push_back(*di);
+            live_defs.push_back(di);
         }
     }
 
